@@ -239,9 +239,10 @@ Definition reduce_verdict (bs : list binding) (c : sort_cfg) (aaps : list aap) (
     (outcome : N) (obs : list binding) (out : list row) : N :=
   let t := mkTable bs inp in
   let small := Nat.leb (length inp) 12 in
-  (* more than 12 rows and a key column of several kinds: rowLess is no strict weak order, pdqsort's output is
-     unspecified and so is the grouping; only the spec comparison below is made *)
-  let unspecified := negb small && match c with Some ks => negb (homogeneous ks inp) | None => false end in
+  (* more than 12 rows outside D11 (a key column of several kinds: rowLess is no strict weak order; or rows that
+     rowLess cannot tell apart but whose ids differ): pdqsort's output is unspecified and so is the grouping; only
+     the spec comparison below is made *)
+  let unspecified := negb small && match c with Some ks => negb (d11 ks inp) | None => false end in
   let agree :=
     match reduce c aaps t, outcome with
     | Ok m, 0%N => bindings_eqb (t_bindings m) obs &&
@@ -305,8 +306,9 @@ Definition e2e11_verdict (group_by : list binding) (projs : list proj) (bs : lis
   let model := bind (project_and_group_by cur_fixes group_by projs (mkTable bs base))
                     (fun t => Ok (match t_rows t with [] => mkTable outs [] | _ => t end)) in
   let small := exact && Nat.leb (length base) 12 in
-  let unspecified := negb (Nat.leb (length base) 12) &&
-                     negb (homogeneous (build_cfg cur_fixes group_by projs []) base) in
+  (* outside D11 the grouping depends on the order of the rows before the sort: it is determined only when that
+     order is the same in both runs (single clause) and Go sorts by insertion (at most 12 rows) *)
+  let unspecified := negb small && negb (d11 (build_cfg cur_fixes group_by projs []) base) in
   let agree :=
     match model, outcome with
     | Ok m, 0%N => bindings_eqb (t_bindings m) obs &&
